@@ -249,6 +249,7 @@ pub fn sanitize(s: &str) -> String {
 use std::cell::RefCell;
 thread_local! {
     static LAST_PANIC: RefCell<Option<(String, String)>> = const { RefCell::new(None) };
+    static IN_CATCH: std::cell::Cell<u32> = const { std::cell::Cell::new(0) };
 }
 
 /// Install a hook that records (message, location) per thread and prints nothing.
@@ -271,8 +272,9 @@ pub fn install_quiet_panic_hook() {
             let frame = map.entry(key).or_insert_with(|| first_statime_frame()).clone();
             loc = format!("{short} via {frame}");
         }
-        if msg.starts_with("harness:") {
-            eprintln!("MACHINERY ERROR {msg} at {loc}");
+        if msg.starts_with("harness:") || IN_CATCH.with(|c| c.get()) == 0 {
+            // not inside a monitored call of the code under test: a bug of the machinery
+            eprintln!("MACHINERY ERROR (panic outside a monitored call): {msg} at {loc}");
         }
         LAST_PANIC.with(|p| *p.borrow_mut() = Some((msg, loc)));
     }));
@@ -339,7 +341,10 @@ impl Caught {
 /// Run `f`, catching a panic of the code under test.
 pub fn catch<R>(f: impl FnOnce() -> R) -> Result<R, Caught> {
     LAST_PANIC.with(|p| *p.borrow_mut() = None);
-    match std::panic::catch_unwind(std::panic::AssertUnwindSafe(f)) {
+    IN_CATCH.with(|c| c.set(c.get() + 1));
+    let res = std::panic::catch_unwind(std::panic::AssertUnwindSafe(f));
+    IN_CATCH.with(|c| c.set(c.get() - 1));
+    match res {
         Ok(r) => Ok(r),
         Err(_) => {
             let (message, location) =
